@@ -135,7 +135,7 @@ def build_repeated(spec, how):
 # ---- values just outside "small": long runs, many runs, unusual characters -----------------------------------------------------
 EXOTIC_TEXTS = (
     "tab\there", "cr\rlf\r\n", "nul\x00del\x7f", "non-bmp \U0001f600\U00010000", "zwj a\u200db\u200d", "rtl \u200f\u05d0\u202e", "quote'\"\\",
-    "x" * 17, "ab" * 16, "line1\nline2\n", " lead and trail ", "\u00e9\u0301\u00df", "[0m[31m", "a;b;c", "%s {} %d",
+    "caf\udce9.txt", "\ud800lone", "x" * 17, "ab" * 16, "line1\nline2\n", " lead and trail ", "\u00e9\u0301\u00df", "[0m[31m", "a;b;c", "%s {} %d",
 )
 
 
